@@ -86,7 +86,11 @@ type AssertAt struct {
 	C      Clause
 }
 
+// Guard: field Field of struct type Type may only be accessed while the mutex field Mutex of the same object is held.
+type Guard struct{ Type, Field, Mutex string }
+
 type SpecLib struct {
+	Guards    []Guard
 	Funs      map[string]*SpecFun
 	Order     []string
 	Lemmas    map[string]*Lemma
@@ -282,6 +286,15 @@ func (lib *SpecLib) loadFile(path, prefix string) error {
 				return bad(fmt.Errorf("'trigger' outside lemma"))
 			}
 			curLemma.Triggers = append(curLemma.Triggers, rest)
+		case "guard":
+			// guard <pkg.Type>.<field> by <mutexfield>
+			fs := strings.Fields(rest)
+			if len(fs) != 3 || fs[1] != "by" {
+				return bad(fmt.Errorf("guard <pkg.Type>.<field> by <mutexfield>"))
+			}
+			i := strings.LastIndex(fs[0], ".")
+			lib.Guards = append(lib.Guards, Guard{Type: fs[0][:i], Field: fs[0][i+1:], Mutex: fs[2]})
+			cur, curLemma = nil, nil
 		case "func", "lemmafunc":
 			curLemma = nil
 			c := lib.Contracts[rest]
@@ -627,6 +640,17 @@ func (lib *SpecLib) prelude(terms []*Term, opaque map[string]bool, fuel map[stri
 				continue
 			}
 			lib.need(f.Name, needed, opaque)
+			if f.Rec && f.BodyTerm != nil && !opaque[f.Name] && x.hasB && depth == 0 && !unfolded[x] {
+				// occurrence under a binder: one unfolding, quantified over the bound variables it mentions
+				unfolded[x] = true
+				m := map[*Term]*Term{}
+				for i, pv := range f.ParamVars {
+					m[pv] = x.Args[i]
+				}
+				if bs := freeBounds(x); len(bs) > 0 {
+					axioms = append(axioms, ForallPat(bs, Eq(x, Subst(f.BodyTerm, m)), x))
+				}
+			}
 			if f.Rec && f.BodyTerm != nil && !opaque[f.Name] && !x.hasB {
 				fl := 1
 				if k, ok := fuel[f.Name]; ok {
